@@ -15,6 +15,7 @@ mod refimpl;
 mod xmlre;
 mod policyre;
 mod fsprobe;
+mod fsatomic;
 
 type Log = Arc<Mutex<Vec<Value>>>;
 
@@ -417,6 +418,12 @@ fn main() {
             std::panic::set_hook(Box::new(|_| {}));
             let keys: Vec<String> = serde_json::from_str(&std::fs::read_to_string(&args[3]).expect("read")).expect("json");
             println!("{}", rt.block_on(fsprobe::locate(&args[2], &keys)));
+        }
+        "fsatomic" => {
+            // args: <scratch directory> <file.json = [scenario, ...]>   (own multi-thread runtime, real time)
+            std::panic::set_hook(Box::new(|_| {}));
+            drop(rt);
+            println!("{}", fsatomic::batch(&args[2], &args[3]));
         }
         "policy" => {
             // args: <file.json> = [{"type":..,"desc":..} | {"type":..,"text":..}, ..]
